@@ -16,9 +16,9 @@ theorem runThread_cont {f : Nat} {sh sh' : Shared} {pc pc' : PC}
 /-! ### Clear -/
 
 theorem clear_oob (sh : Shared) (id : Nat) (h : ¬ id / 64 < sh.words.length) :
-    clear sh id = (sh, some .crashIndex) := by
+    clear sh id = (sh, some (.cleared false)) := by
   have h' : ¬ bucketOffset id < sh.words.length := h
-  have e1 : tstep sh (.c8 id) = (sh, .idle, some .crashIndex) := by simp only [tstep, h', ↓reduceIte]
+  have e1 : tstep sh (.c8 id) = (sh, .idle, some (.cleared false)) := by simp only [tstep, h', ↓reduceIte]
   simp only [clear, seqOp, startPC]
   rw [runThread_ret e1]
 
